@@ -348,8 +348,8 @@ func runBoot(c *eng.Ctx, batch int) {
 		}()
 		select {
 		case <-done:
-		case <-time.After(30 * time.Second):
-			c.Violate(entry+"hang|"+m, "constructor did not return within 30 s", b)
+		case <-time.After(300 * time.Second):
+			c.Violate(entry+"hang|"+m, "constructor did not return within 300 s", b)
 			return
 		}
 		c.Eval(1)
